@@ -2360,7 +2360,7 @@ TABLE = {
     "C02": [("R2.12", borrow("C01", "R1.3", None, "the caller's edges are written before the build: a dependency that fails is then still an edge, gets retried through the caller and makes it rebuild once it succeeds")),
             ("R2.11", successful_build_clears_override), ("R2.7", every_candidate_leaves_an_edge), ("R2.10", add_dep_replaces_unconditionally),
             ("R2.8", borrow("C03", "R3.2", None, "a build wrongly taken for a stamped one never advances changed_runid: the target and its dependents then re-run on every later redo-ifchange"))],
-    "C13": [("R13.11", borrow("C14", "R14.2", None, "a must-not-exist edge (the higher-priority .do candidates that were looked for and not found) is dirty exactly when the path exists now - whatever else is known about that path in this run: a rule created for one sibling must be noticed by all")),
+    "C13": [("R13.11", borrow("C01", "R1.1", r"Created=>exists-test", "a must-not-exist edge (the higher-priority .do candidates that were looked for and not found) is dirty exactly when the path exists now - whatever else is known about that path in this run: a rule created for one sibling must be noticed by all")),
             ("R13.10", shebang_read_tolerates_any_bytes), ("R13.6", every_candidate_leaves_an_edge), ("R13.7", check_never_refreshes_stamps),
             ("R13.8", borrow("C02", "R2.3", r"^(add_dep\||sql-literals-found)", "a must-not-exist edge for a higher-priority .do candidate has to replace last build's row (and clear its deletion mark), or it is swept after the second build and a new candidate is never noticed"))],
     "C03": [("R3.14", unlocked_phases_are_conditional), ("R3.12", memo_after_failed_test), ("R3.13", stamped_mark_is_build_specific), ("R3.9", signal_death_is_failure), ("R3.10", uncertain_is_not_built_directly), ("R3.11", stamp_reads_to_eof)],
